@@ -298,6 +298,8 @@ package allocation
 //@ func (*Manager).CreateAllocation
 //@   requires m.log != nil && m.allocations != nil && m.allocatePacketConn != nil && m.allocateListener != nil && allocsNonNil(m)
 //@   requires [C03:authed] authOK && userID == authUser
+//@   at-call field allocation.Manager.allocatePacketConn assert [C19,C20:request-passed-to-the-generator] arg0.RequestedPort == requestedPort && arg0.UserID == userID && arg0.Realm == realm && int(protocol) == 17
+//@   at-call field allocation.Manager.allocateListener assert [C19,C20:request-passed-to-the-generator] arg0.RequestedPort == requestedPort && arg0.UserID == userID && arg0.Realm == realm && int(protocol) == 6
 //@   ensures [C04:no-dup] fiveTuple != nil && old(allocOf(m, fiveTuple.SrcAddr, fiveTuple.DstAddr, int(fiveTuple.Protocol))) != nil ==> res1 != nil
 //@   ensures [C04,C15:fail-clean] res1 != nil ==> res0 == nil && (forall k :: haskey(m.allocations, k) == old(haskey(m.allocations, k)) && valat(m.allocations, k) == old(valat(m.allocations, k))) && allocCreatedEvents == old(allocCreatedEvents)
 //@   ensures [C04,C19:installed] res1 == nil ==> res0 != nil && fresh(res0) && fiveTuple != nil && allocOf(m, fiveTuple.SrcAddr, fiveTuple.DstAddr, int(fiveTuple.Protocol)) == res0
